@@ -53,3 +53,4 @@ def distribution(cases):
     d = {}
     for c in cases: d[c["band"] + "/" + c["pool"]] = d.get(c["band"] + "/" + c["pool"], 0) + 1
     return {"band_and_pool": d}
+common.add_growth(globals())
